@@ -604,6 +604,7 @@ theorem settled_applyRec {s : Store} (h : Settled s) (r : WRec) : Settled (apply
   | setEdgeProp id k v => have := setEdgeProp_same s id k v; exact settled_of_same this.1 this.2.1 this.2.2 h
   | addLabel id l => have := addLabel_same s id l; exact settled_of_same this.1 this.2.1 this.2.2 h
   | removeLabel id l => have := removeLabel_same s id l; exact settled_of_same this.1 this.2.1 this.2.2 h
+  | removeNodeProp id k => exact settled_of_same rfl rfl rfl h
   | txCommit => exact h
   | txAbort => exact h
   | checkpoint => exact h
@@ -618,6 +619,7 @@ theorem applyRec_epoch (s : Store) (r : WRec) : (applyRec s r).epoch = s.epoch :
   | setEdgeProp id k v => exact (setEdgeProp_same s id k v).1
   | addLabel id l => exact (addLabel_same s id l).1
   | removeLabel id l => exact (removeLabel_same s id l).1
+  | removeNodeProp id k => rfl
   | txCommit => rfl
   | txAbort => rfl
   | checkpoint => rfl
@@ -635,6 +637,7 @@ theorem norm_applyRec {s : Store} (h : Settled s) (he : s.epoch ≤ pendingEpoch
   | setEdgeProp id k v => exact norm_setEdgeProp s h he id k v
   | addLabel id l => exact (norm_addLabel s h id l).1
   | removeLabel id l => exact (norm_removeLabel s h id l).1
+  | removeNodeProp id k => rfl
   | txCommit => rfl
   | txAbort => rfl
   | checkpoint => rfl
@@ -1235,6 +1238,29 @@ open Grafeo.Lpg Grafeo.Wal
 
 /-- ids in a create record are not below the store's counters (always so for the record a
 create call has just logged) -/
+theorem nodePropsOf_removeNodeProp (s : Store) (id k x : Nat) :
+    (s.removeNodeProp id k).1.nodePropsOf x = if x = id then aerase (s.nodePropsOf id) k else s.nodePropsOf x := by
+  unfold Store.removeNodeProp Store.nodePropsOf
+  simp only
+  cases h : aget s.nprops id with
+  | none =>
+    simp only [Option.isSome_none, Bool.false_eq_true, if_false, Option.getD_none]
+    by_cases hx : x = id
+    · subst hx; simp [h, aerase]
+    · simp [hx]
+  | some p =>
+    simp only [Option.isSome_some, if_true, getD_aget_aset, Option.getD_some]
+
+theorem good_removeNodeProp {s : Store} (h : Good s) (id k : Nat) : Good (s.removeNodeProp id k).1 := by
+  refine ⟨nodeKeysOk_of_same h.nk rfl rfl, labelsOk_of_same h.lb rfl, ⟨?_, h.pr.2⟩,
+    edgesOk_of_same h.ed rfl rfl rfl rfl rfl rfl, edgeSingle_of_same h.sg rfl⟩
+  intro x
+  rw [nodePropsOf_removeNodeProp]
+  split
+  · rw [akeys_aerase]
+    exact List.Nodup.sublist List.filter_sublist (h.pr.1 id)
+  · exact h.pr.1 x
+
 def RecFresh (s : Store) : WRec → Prop
   | .createNode id _ => s.nextNode ≤ id
   | .createEdge id _ _ _ => s.nextEdge ≤ id
@@ -1251,6 +1277,7 @@ theorem good_applyRec {s : Store} (h : Good s) (hs : Settled s) (r : WRec) (hr :
   | setEdgeProp id k v => exact good_setEdgeProp h id k v
   | addLabel id l => exact good_addLabel h id l
   | removeLabel id l => exact good_removeLabel h id l
+  | removeNodeProp id k => exact good_removeNodeProp h id k
   | txCommit => exact h
   | txAbort => exact h
   | checkpoint => exact h
@@ -1272,6 +1299,7 @@ def recOf (s : Store) : LOp → Option WRec
   | .setEdgeProp id k v => some (.setEdgeProp id k v)
   | .addLabel id l => if (s.addLabel id l).2 then some (.addLabel id l) else none
   | .removeLabel id l => if (s.removeLabel id l).2 then some (.removeLabel id l) else none
+  | .removeNodeProp id k => if (s.removeNodeProp id k).2.isSome then some (.removeNodeProp id k) else none
   | .checkpoint => none
   | .closeReopen => none
 
@@ -1309,6 +1337,11 @@ theorem api_data (d : Db) (op : LOp) (h : op.isData = true) :
     cases hok : (d.live.removeLabel id l).2 with
     | true => rfl
     | false => simp [removeLabel_false _ _ _ hok]
+  | removeNodeProp id k =>
+    simp only [Db.api, recOf]
+    cases hok : (d.live.removeNodeProp id k).2 with
+    | some o => rfl
+    | none => simp [removeNodeProp_none _ _ _ hok]
   | checkpoint => cases h
   | closeReopen => cases h
 
@@ -1322,6 +1355,7 @@ theorem recOf_fresh (s : Store) (op : LOp) (r : WRec) (h : recOf s op = some r) 
   case deleteEdge id => split at h <;> cases h; trivial
   case addLabel id l => split at h <;> cases h; trivial
   case removeLabel id l => split at h <;> cases h; trivial
+  case removeNodeProp id k => split at h <;> cases h; trivial
   all_goals cases h
 
 theorem recOf_kind (s : Store) (op : LOp) (r : WRec) (h : recOf s op = some r) : r.kind = .data := by
@@ -1334,6 +1368,7 @@ theorem recOf_kind (s : Store) (op : LOp) (r : WRec) (h : recOf s op = some r) :
   case deleteEdge id => split at h <;> cases h; rfl
   case addLabel id l => split at h <;> cases h; rfl
   case removeLabel id l => split at h <;> cases h; rfl
+  case removeNodeProp id k => split at h <;> cases h; rfl
   all_goals cases h
 
 /-- the record logged does not depend on the stamps -/
@@ -1347,6 +1382,7 @@ theorem recOf_norm {s : Store} (hs : Settled s) (op : LOp) : recOf s.norm op = r
   | deleteEdge id => simp only [recOf]; rw [(norm_deleteEdgeAt s hs id).2]; rfl
   | addLabel id l => simp only [recOf, (norm_addLabel s hs id l).2]
   | removeLabel id l => simp only [recOf, (norm_removeLabel s hs id l).2]
+  | removeNodeProp id k => rfl
   | checkpoint => rfl
   | closeReopen => rfl
 
